@@ -457,7 +457,8 @@ class C05(Prop):
                 "NV.C05.tie_context_fields_saved", "NV.C05.tie_every_field_saved_is_restored", "NV.C05.tie_context_globals",
                 "NV.C05.tie_frame_registers", "NV.C05.tie_frame_saved_is_restored", "NV.C05.tie_all_globals_classified",
                 "NV.C05.tie_classes_match_source", "NV.C05.tie_command_giver_stack", "NV.C05.tie_callback_handlers",
-                "NV.C05.tie_backend_shapes", "NV.C05.driver_restores", "NV.C05.model_satisfies_spec_driver",
+                "NV.C05.tie_backend_shapes", "NV.C05.tie_catch_value_order", "NV.C05.raise_sets_catch_value_after_handler",
+                "NV.C05.driver_restores", "NV.C05.model_satisfies_spec_driver",
                 "NV.C05.backend_cycle_restores", "NV.C05.model_satisfies_spec_backend", "NV.C05.restoreContext_verb",
                 "NV.C05.saveContext_verb", "NV.C05.judgeObs_nil_of_core", "NV.C05.hbOffStep_same", "NV.C05.verbFinish_good", "NV.C05.hbFinish_good",
                 "NV.C05.safeFpFinish_total", "NV.C05.safeApply_all_arities", "NV.C05.call_all_arities", "NV.C05.safeFinish_total",
@@ -698,6 +699,16 @@ class C05(Prop):
                    "def errorHandlerHeartBeatOffLast : Bool := %s"
                    % ("true" if 0 <= catch_end < last_handler < hb and "current_heart_beat = 0" in eh[hb:] and
                       "set_heart_beat (current_heart_beat, 0)" in eh[hb:] else "false"))
+        # (5b) error_handler, caught branch: catch_value (a global that every catch() executed by the master's handler
+        #      overwrites) is assigned AFTER mudlib_error_handler (err, 1) returned, directly before the longjmp
+        i_h1 = eh.find("mudlib_error_handler (err, 1)")
+        i_cv = eh.find("catch_value.u.string = string_copy")
+        i_free = eh.find("free_svalue (&catch_value")
+        i_jmp = eh.find("longjmp (current_error_context->context, 1)")
+        out.append("/-- error_handler (caught error): the master's handler is applied first, then catch_value is freed and set to the "
+                   "message, then the longjmp; nothing that can run LPC sits between the assignment and the longjmp -/\n"
+                   "def errorHandlerSetsCatchValueAfterHandler : Bool := %s"
+                   % ("true" if 0 <= i_h1 < i_free < i_cv < i_jmp and not re.search(r"\b(apply\w*|mudlib_error_handler|call_\w+)\s*\(", eh[i_cv:i_jmp]) else "false"))
         # (6) backend(): one context for the whole loop; recovery = restore_context only; pop_context after the loop
         be = body("src/backend.c", "backend")
         i_save, i_set, i_loop, i_pop = be.find("save_context (&econ)"), be.find("if (setjmp (econ.context))"), be.find("while (1)"), be.find("pop_context (&econ)")
@@ -877,6 +888,24 @@ class C05(Prop):
                                     (CATCHSTMT % '"/c05/user"->gocmd ()') if outer else call,
                                     ("(catch %s) (saycatch)" % o) if outer else o,
                                     fns=["void gobody () { %s }" % stmt]))
+        # what a catch yields when the master's error_handler itself runs LPC with catch() / throw() / efun callbacks
+        # between "error raised" and "error delivered" (evaluated without fault injection: `run`)
+        hfns = ['void f1 () { error ("boom1\\n"); }', "int f2 (int x) { f1 (); return x; }",
+                "void f3 () { %s %s error (\"boom2\\n\"); }" % (DECL, CATCHSTMT % "f1 ()")]
+        hshapes = [("plain", CATCHSTMT % "f1 ()", "(catch (call local t 0 0 (raise boom1))) (saycatch)"),
+                   ("nested", CATCHSTMT % "f3 ()",
+                    "(catch (call local t 0 0 (catch (call local t 0 0 (raise boom1))) (saycatch) (raise boom2))) (saycatch)"),
+                   ("callback", CATCHSTMT % "map (({ 1 }), (: f2 :))",
+                    "(catch (tmp 3 (cb fplocal t 1 1 (call local t 0 0 (raise boom1))))) (saycatch)"),
+                   ("if", 'if (catch (f1 ())) VL ("say failed"); else VL ("say succeeded");',
+                    "(catch (call local t 0 0 (raise boom1))) (say failed)"),
+                   ("uncaught", 'f1 ();', "(call local t 0 0 (raise boom1))")]
+        # (scripts with at most ONE error caught inside the handler per invocation: the driver clears its "in the mudlib error
+        #  handler" flag at the first one, so a second one re-enters the handler recursively - see notes/C05.md)
+        for script in (1, 2, 4, 8, 16, 5, 7, 21):
+            for name, stmt, hops in hshapes:
+                B.append(fixed_case("b-handler-script-%d-%s" % (script, name), stmt, hops, fns=hfns,
+                                    prep='"/c05/master"->set_hscript (%d);' % script, inject="run t run"))
         # a register changed between save_context and the first frame push is not restored (model predicts it)
         B.append(fixed_case("b-setreg-co", "f1 ();", "(call local t 0 0 (say x))", fns=['void f1 () { VL ("say x"); }'],
                             inject="inject t run co probe"))
@@ -914,6 +943,9 @@ class C05(Prop):
             ("probe-destruct", [out(["done 1"], pr=probe.replace("d=0", "d=*Only this_object() can be destructed"))], "probe fault differs"),
             ("half-install", [out(["caught nf", "catch nf", "done 1"], pr=probe.replace("in=0", "in=1"))], "half-install"),
             ("catch-value", [out(["caught *boom1", "catch *other", "done 1"])], "catch-value"),
+            ("catch-value-zero", [out(["caught *boom1", "catch 0", "done 1"])], "catch-value"),
+            ("catch-value-one", [out(["caught *boom1", "catch 1", "done 1"])], "catch-value"),
+            ("catch-value-stale", [out(["catch *boom1", "done 1"])], "catch-value"),
             ("cg-changed", [out(["caught *boom1", "catch *boom1 cg-changed", "done 1"])], "command_giver not restored by catch"),
             ("hb-off-unreported", ["probe0 " + hb1, out(["caught *boom1", "catch *boom1", "done be"]).replace("outcome ", "free ", 1)], "heart-beat"),
             ("hb-off-fault-caught", ["probe0 " + hb1, out(["caught *verif injected fault", "catch *verif injected fault", "done be"])], "heart-beat"),
@@ -927,6 +959,8 @@ class C05(Prop):
                ("ok-setcg", [out(["say set-cg", "done 1"], snap.replace("cg=u1", "cg=t"))]),
                ("ok-install", [out(["say did-input_to", "done 1"], pr=probe.replace("in=0", "in=1"))]),
                ("ok-throw", [out(["catch t7", "done 1"])]),
+               ("ok-caught", [out(["caught *boom1", "catch *boom1", "err *boom2", "fault-top"])]),
+               ("ok-caught-then-plain", [out(["caught *boom1", "catch *boom1", "catch 0", "done 1"])]),
                ("ok-hb-off", ["probe0 " + hb1, out(["err *boom1", "fault-top", "loop " + snap])]),
                ("ok-loop", [out(["done be", "loop " + snap])])]
         cases, want = [], {}
